@@ -764,6 +764,22 @@ def _statement_body(draw, names):
             body["condition"] = draw(_cond(names, draw(st.integers(0, 2))))
         elif draw(st.booleans()):
             body["condition"] = None
+    if draw(st.integers(0, 4)) == 0:
+        # sub-terms that are == but differ in a constant's type (x*4 and x*4.0) within one
+        # statement: renaming must not exchange them (statements are observed strictly)
+        v = ["Var", draw(st.sampled_from(names))]
+        kk = draw(st.sampled_from((2, 4, 1)))
+        t1 = ["Product", [v, ["Const", "int", kk]]]
+        t2 = ["Product", [v, ["Const", "float", float(kk)]]]
+        if draw(st.booleans()):
+            t1, t2 = t2, t1
+        if body["kind"] == "ConditionalAssignment" and body.get("condition") \
+                and draw(st.booleans()):
+            body["rhs"] = ["Sum", [body["rhs"], t1]]
+            body["condition"] = ["LogicalAnd", [body["condition"],
+                                                ["Comparison", t2, "<", ["Const", "int", 9]]]]
+        else:
+            body["rhs"] = ["Sum", [body["rhs"], t1, t2]]
     return body
 
 
